@@ -46,6 +46,15 @@ CHECKS = {
  "C09": (True, MC, "complete product of reference kind x target namespace x prefix situation x declaration order x decoys, run on the real generator; resolution judged on the syn item model",
          "The local name Thing is reused as complex type and global element in both namespaces, as a local element, as an attribute, as WSDL message and part name; every carrier has a unique marker member. For the complete product {type=, base=, ref=} x {own, imported namespace} x {own prefixes, the prefix tns bound to different URIs in the two files, default namespace} x {declared before, after use} x {decoys absent, present} (72 states) and for part element= x {WSDL's, imported namespace} x parts {explicit, absent}, the referring struct must lead (through aliases) to the struct that declares the expected namespace and carries the expected marker, and inherited/ref members must be bound to the declaring namespace.",
          "Two namespaces/files; carriers identified by declared namespace + marker member.", "4/C09"),
+ "C05": (True, MC, "breadth-first exploration of WSDL productions on the real generator; discovered client surface judged on the syn item model, envelopes serialized / deserialized / posted by the compiled code against a loopback listener",
+         "From the WSDL seed every single production (operation name styles, input-only, 1-3 header parts per direction, explicit parts, header parts bound with parts absent, no soapAction, part named as its element, elements in an imported namespace, 2-3 operations, service name styles, address forms; thorough: all pairs and a second operation with each production, about 230 states) is generated. Item model: a service struct named after the service with exactly one public snake_case async method per operation taking the request envelope and returning the response envelope iff the operation has an output. Compiled driver: each request/response envelope is built by complete literals, serialized and compared with the expected SOAP 1.1 infoset (Body = the bound body part's element, Header = the header parts' elements under their own QNames); a response printed in other prefixes deserializes to the same value; the call arrives as one POST at the location, which equals the WSDL port address by default.",
+         "Envelope, header, body and service items are discovered through the soapenv namespace, the Envelope/Header/Body renames and the method signatures, never by name. One service and one port; document/literal only.", "4/C05"),
+ "C16": (True, FE, "complete enumeration of scripted server behaviours x credentials x client shapes; each row is a real call of the compiled generated client against a loopback listener",
+         "4 client shapes x 6 credential settings x (9 statuses x 5 reply bodies + 4 transport faults) = 1176 exchanges. Per exchange the listener log must show exactly one connection and request (none when refused), method POST, the location's path and query as target, the serialized request envelope as body and Authorization: Basic base64(user:password) exactly when credentials are configured; the call must return the scripted response for 200/201 with the envelope (exact or in other prefixes), Ok(()) for any 2xx of a one-way operation, and an error for every other row.",
+         "3xx replies are outside the claim. A 204 reply has no body by HTTP definition, so it is an error for operations with an output. Free-standing soapAction functions post to a URL fixed at generation time and are exercised for Send only (C18).", "4/C16"),
+ "C18": (True, MC, "exploration of every generated client shape; rustc's auto-trait solver as per-program oracle, plus a spawned call on a multi-threaded runtime",
+         "For every state of the C05 scope the driver asserts Send on the future of every client method and free-standing function, Send + Sync on every envelope type, and spawns the method call onto a multi-threaded tokio runtime against the loopback listener. The fixed helper functions are discovered in the emitted file and additionally driven with a hand-written request envelope that is Send but not Sync (appended to the emitted text because the helper module is private).",
+         "The verdict per program is rustc's; a probe that does not fit a refactored helper signature yields no verdict (recorded in the evidence), never an alarm.", "4/C18"),
 }
 
 NOT_YET = {
